@@ -8,7 +8,7 @@ macro "inv_close" : tactic =>
       cpNeedsCtx, ceNeedsCtx, cpCancelSent, pendingTerm, isGet, isRel, finishTerminate, → needsLoad_exec]))
 
 macro "inv_destruct" h:ident : tactic =>
-  `(tactic| obtain ⟨a1, a2, p0, b, k3, k4, c, c1, c2, tv, tw, j, j2, k1, k2, t1, l, f0, f1, n1, n2, n2e, n3, n3d, n3c, o1, o2, o3, o4, pz, zApi, zCtx, zTerm, ts, ac⟩ := $h)
+  `(tactic| obtain ⟨a1, a2, p0, b, k3, k4, c, c1, c2, tv, tw, j, j2, k1, k2, t1, l, f0, f1, n1, n2, n2e, n3, n3d, n3c, o1, o2, o3, o4, pz, zApi, zCtx, zTerm, ts, ac, cx⟩ := $h)
 
 /-- uniform script: unfold the step, split every condition, close each surviving branch -/
 macro "inv_step" : tactic =>
